@@ -244,6 +244,8 @@ func c11race(cw *caseWriter, tag string, seed uint64) {
 			for idx := m.Index + 1; idx <= n.r.LastIndex(); idx++ {
 				if _, ok := logs.m[idx]; !ok {
 					cw.monitor("C11", tag, "index-neither-in-snapshot-nor-in-log", "newest snapshot at index %d, last index %d, index %d is in neither", m.Index, n.r.LastIndex(), idx)
+					// C12: a follower that needs that entry gets the same snapshot again and again (setupAppendEntries: ErrLogNotFound)
+					cw.monitor("C12", tag, "index-neither-in-snapshot-nor-in-log", "newest snapshot at index %d, last index %d, index %d is in neither: a follower at %d can be sent neither the entry nor a newer snapshot", m.Index, n.r.LastIndex(), idx, m.Index)
 					break
 				}
 			}
